@@ -74,9 +74,46 @@ MULTILINE = [     # a quoted value over several lines, continuation lines indent
 ]
 
 
-def page_of(text, raw_newlines=False):
-    r = pipeline.document_text(text)
+ABUT = [     # quoted arguments followed by further arguments: CMake accepts them without any separator in between
+    {"k": "set", "doc": 1, "values": ['"Hello, "', '"World"', "tail"], "doctext": ["A list."]},
+    {"k": "add_test", "doc": 1, "args": ["NAME", "abut_test", "COMMAND", "prog", '"a b"', '"c"', "d"], "doctext": ["A test."]},
+    {"k": "generic", "doc": 1, "cmd": "message", "args": ['"x"', "y", '"z"'], "doctext": ["A command."]},
+    {"k": "option", "doc": 1, "help": '"help"', "default": "ON"},
+    {"k": "cpp_class", "doc": 1}, {"k": "cpp_attr", "doc": 1, "default": '"dv"'},
+]
+
+EMPTYDOCS = [     # doccomments without any text, judged under include_undocumented_* all off as well
+    {"k": "function", "doc": 1, "params": ["a"], "doctext": []}, {"k": "close"},
+    {"k": "macro", "doc": 1, "params": [], "doctext": [""]}, {"k": "close"},
+    {"k": "option", "doc": 1, "doctext": []}, {"k": "add_test", "doc": 1, "doctext": []},
+    {"k": "ct_add_test", "doc": 1, "doctext": [""]}, {"k": "ct_add_section", "doc": 1, "doctext": []}, {"k": "close"}, {"k": "close"},
+    {"k": "cpp_class", "doc": 1, "doctext": []}, {"k": "cpp_attr", "doc": 1, "doctext": []},
+    {"k": "cpp_member", "doc": 1, "types": ["int"], "params": ["a"], "doctext": [""]}, {"k": "close"},
+    {"k": "cpp_constructor", "doc": 1, "types": [], "params": [], "doctext": []},
+]
+ALL_OFF = tuple(("include_undocumented_" + k, False) for k in ("function", "macro", "cpp_class", "cpp_attr", "cpp_constructor",
+                                                              "cpp_member", "ct_add_test", "add_test", "ct_add_section", "option"))
+
+
+def page_of(text, raw_newlines=False, cfg=None):
+    r = pipeline.document_text(text, pipeline.make_settings(dict(cfg)) if cfg else None)
     return r["page"], r["error"]
+
+
+def validate_abutting():
+    """the lenient reading of `"a""b"` (two arguments) is CMake's own: checked against `cmake --trace` once per run"""
+    import json as _json
+    import os
+    import subprocess
+    body = 'probe("a""b" "c"d "e"${f} g)\nprobe("x"\n"y")\n'
+    path = os.path.join(pipeline.tmpdir(), "abut.cmake")
+    with open(path, "w") as f:
+        f.write("function(probe)\nendfunction()\n" + body)
+    p = subprocess.run(["cmake", "--trace", "--trace-format=json-v1", "-P", path], capture_output=True, text=True)
+    got = [_json.loads(l)["args"] for l in p.stderr.splitlines() if l.startswith('{"args"') and _json.loads(l)["cmd"] == "probe"]
+    want = [a for n, a, _ in reflex.parse(body, lenient=True)]
+    if p.returncode != 0 or got != want:
+        raise common.HarnessFault(f"cmake does not read abutting arguments the way the reference does: {got} vs {want} ({p.stderr[-200:]})")
 
 
 def gap_variants(toks, kinds, fillers, only_between=False):
@@ -93,6 +130,11 @@ def gap_variants(toks, kinds, fillers, only_between=False):
                 if f not in WS:
                     continue
                 yield n, f, f
+                continue
+            if f == "<none>":
+                # no separator at all: only after a quoted argument, in front of a quoted or plain unquoted one
+                if a == "arg" and b == "arg" and toks[n].startswith('"') and (toks[n + 1].startswith('"') or toks[n + 1][:1].isalnum()):
+                    yield n, "<no separator after a quoted argument>", ""
                 continue
             lead = " " if (default == "" and a not in ("(", "((")) else ""
             # a bracket comment must not share its line with a following command (CMake rejects that)
@@ -116,6 +158,7 @@ def check_module(job):
     events, mode = job[0], job[1]
     part, nparts = (job[2], job[3]) if len(job) > 2 else (0, 1)
     base_layout = dict(job[4]) if len(job) > 4 else {}
+    cfg = job[5] if len(job) > 5 else None
     _render = cmakegen.render
 
     def render_with_base(its_, layout=None, gaps=None, over=None):
@@ -126,7 +169,7 @@ def check_module(job):
     evs = cmakegen.close(events)
     its = cmakegen.items(evs)
     base_text = render_with_base(its)
-    base, err = page_of(base_text)
+    base, err = page_of(base_text, cfg=cfg)
     n = 1
     viol = []
     digs = set()
@@ -140,14 +183,14 @@ def check_module(job):
         digs.add(common.digest(text))
         # the variant generator is validated first: CMake's view of the commands must be unchanged
         try:
-            cmds = [(nm.lower(), a) for nm, a, _ in reflex.parse(text)]
+            cmds = [(nm.lower(), a) for nm, a, _ in reflex.parse(text, lenient=True)]
         except reflex.LexError as ex:
             raise common.HarnessFault(f"layout variant is not valid CMake ({ex}) [{label}]: {text[:300]!r}")
         if crlf:      # a line break inside a quoted argument is rewritten, too: the argument is compared modulo '\r'
             cmds = [(nm, [x.replace("\r", "") for x in a]) for nm, a in cmds]
         if cmds != base_cmds:
             raise common.HarnessFault(f"layout variant changes the command sequence [{label}]")
-        p, e = page_of(text)
+        p, e = page_of(text, cfg=cfg)
         if p is None:
             viol.append((label, f"error: variant is rejected: {e}   [{label}]", text, crlf))
         elif (norm_crlf(p) != norm_crlf(base)) if crlf else (p != base):
@@ -157,12 +200,12 @@ def check_module(job):
     if base is None:
         return {"viol": [f"error: default layout rejected: {err}"], "n": 1, "obs": None, "nt": None, "cls": "error"}
     toks, kinds = cmakegen.flat_tokens(its, cmakegen.DEFAULT_LAYOUT)
-    fillers = FILL if mode in ("full", "pairs") else LIGHT
+    fillers = (FILL + ["<none>"]) if mode in ("full", "pairs") else LIGHT
     gv = list(gap_variants(toks, kinds, fillers, only_between=(mode == "light")))
     for g, f, gtext in gv:
         cmp(f"gap {g} ({kinds[g]}->{kinds[g + 1]}) filler {f!r}", render_with_base(its, gaps={g: gtext}))
     # head / tail
-    for f in fillers:
+    for f in [x for x in fillers if x != "<none>"]:
         trail = "" if f[-1] in " \t\n" else "\n"
         cmp(f"head filler {f!r}", render_with_base(its, {"head": f + trail}))
         if kinds and kinds[0] in ("doc", "moddoc") and f[-1] not in " \t\n":
@@ -210,7 +253,8 @@ def check_module(job):
     return {"viol": msgs, "n": n, "obs": common.digest(sorted(digs)), "nt": common.digest(events) if nt else None,
             "cls": (viol[0][1].split(":")[0] + " " + viol[0][0].split(" filler ")[-1][:30]) if viol else None,
             "variants": len(digs),
-            "case": {"default_text": base_text, "variant_text": viol[0][2], "crlf": viol[0][3], "label": viol[0][0]}
+            "case": {"default_text": base_text, "variant_text": viol[0][2], "crlf": viol[0][3], "label": viol[0][0],
+                     "cfg": [list(x) for x in cfg] if cfg else None}
             if viol else None}
 
 
@@ -250,6 +294,9 @@ def run(ctx):
     jobs += [(TWINS, "full", p, 16) for p in range(16)]
     jobs += [(MULTILINE, "full", p, 4, (("cmd_indent", "        "),)) for p in range(4)]
     jobs += [(MULTILINE, "full", p, 4) for p in range(4)]
+    jobs += [(ABUT, "full", p, 4) for p in range(4)]
+    jobs += [(EMPTYDOCS, "full", p, 8, (), cfg) for p in range(8) for cfg in (None, ALL_OFF, ALL_OFF[:2])]
+    validate_abutting()
     for h in hs:
         if len(h) <= n_full:
             jobs.append((h, "pairs" if (not quick and len(h) <= 1) else "full"))
@@ -269,8 +316,9 @@ def run(ctx):
 def replay(case):
     if "shadow" in case:
         return common.in_fork(check_shadow, (case["shadow"],))["viol"]
-    base, e0 = page_of(case["default_text"])
-    p, e = page_of(case["variant_text"])
+    cfg = [tuple(x) for x in case["cfg"]] if case.get("cfg") else None
+    base, e0 = page_of(case["default_text"], cfg=cfg)
+    p, e = page_of(case["variant_text"], cfg=cfg)
     if p is None:
         return [f"error: variant is rejected: {e}   [{case['label']}]"]
     if (norm_crlf(p) != norm_crlf(base)) if case["crlf"] else (p != base):
